@@ -133,7 +133,11 @@ def histories(count, rng, dim=2):
                     lines.append(f"wa {rng.choice(regs)} {d} {rng.randint(1, 999)}")
             elif r < 0.40 and len(alive) >= 2:
                 l, rr = rng.sample(alive, 2)
-                lines.append(rng.choice([f"flink 1 {l} {rr}", f"flink 2 {l} {rr}", f"funlink 1 {l}", f"funlink 2 {l}", f"fsew 1 {l} {rr}"]))
+                ops = [f"flink 1 {l} {rr}", f"flink 2 {l} {rr}", f"funlink 1 {l}", f"funlink 2 {l}", f"fsew 1 {l} {rr}"]
+                if dim == 3:
+                    # darts that are only 3-linked (0-, 1-, 2-free) must be refused by remove_free_dart as well
+                    ops += [f"flink 3 {l} {rr}", f"flink 3 {l} {rr}", f"funlink 3 {l}", f"funlink 1 {l}"]
+                lines.append(rng.choice(ops))
             elif r < 0.62 and (alive or maybe_removed):
                 d = rng.choice(alive + maybe_removed)
                 lines += ["snap", f"rm {d}"]
